@@ -645,3 +645,233 @@ Proof.
   assert (A : lifeA st). { apply lifeA_run. unfold f11_state. apply lifeA_run. apply lifeA_init. }
   unfold lifeA in A. pose proof (cnt_ge lweight _ _ _ N1) as G. rewrite Hp in G. simpl in G. lia.
 Qed.
+
+(* ------------------------------------------------------------------ no lock-stuck state (repaired locking) *)
+(* code shape: a lock instruction is immediately followed by the instruction that releases the lock *)
+Fixpoint inner (l : list linstr) : bool :=
+  match l with
+  | [] => true
+  | IRLock :: r => match r with IExpand _ :: r' => inner r' | _ => false end
+  | ILock :: r => match r with IAppend _ :: r' => inner r' | _ => false end
+  | IExpand _ :: _ => false
+  | IAppend _ :: _ => false
+  | IRUnlock :: _ => false
+  | _ :: r => inner r
+  end.
+Definition shape (l : list linstr) : bool :=
+  match l with IExpand _ :: r => inner r | IAppend _ :: r => inner r | _ => inner l end.
+
+Lemma inner_shape : forall l, inner l = true -> shape l = true.
+Proof. destruct l as [|[] l]; simpl; auto; discriminate. Qed.
+Lemma inner_app_simple : forall a b, (forall i, In i a -> match i with ISubmit _ | ICall _ _ | IAct _ => True | _ => False end) ->
+  inner (a ++ b) = inner b.
+Proof. induction a as [|i a IH]; simpl; intros; auto. pose proof (H i (or_introl eq_refl)). destruct i; try contradiction; apply IH; intros; apply H; auto. Qed.
+Lemma inner_calls : forall s fl r, inner (lcalls s fl ++ r) = inner r.
+Proof.
+  intros. apply inner_app_simple. intros i Hi. unfold lcalls in Hi.
+  destruct fl; apply in_app_or in Hi; destruct Hi as [Hi|Hi]; apply in_map_iff in Hi; destruct Hi as [k [E _]]; subst; exact I.
+Qed.
+Lemma inner_acts : forall k r, inner (map IAct k ++ r) = inner r.
+Proof. intros. apply inner_app_simple. intros i Hi. apply in_map_iff in Hi. destruct Hi as [a [E _]]. subst. exact I. Qed.
+Lemma inner_unwind : forall n r, length r <= n -> inner r = true -> inner (lunwind r) = true.
+Proof.
+  induction n as [|n IH]; intros r Hl Hi.
+  - destruct r; simpl in *; auto; lia.
+  - destruct r as [|i r]; simpl in *; auto.
+    destruct i; simpl; try discriminate; try (apply IH; auto; lia); auto.
+    + destruct r as [|[] r']; try discriminate. simpl. apply IH; auto. simpl in Hl. lia.
+    + destruct r as [|[] r']; try discriminate. simpl. apply IH; auto. simpl in Hl. lia.
+Qed.
+
+Lemma i_shape : forall c tid i rest S code' S' ev, c_fixed_lock c = true ->
+  listep c tid i rest S = Some (code', S', ev) -> shape (i :: rest) = true -> shape code' = true.
+Proof.
+  intros c tid i rest S code' S' ev Hf H Hs. inv_i H; simpl in *; auto.
+  all: try (rewrite Hf, orb_true_r in *; discriminate).
+  all: try (destruct code' as [|[] r']; try discriminate; simpl; auto; fail).
+  all: try (apply inner_shape; rewrite ?inner_calls, ?inner_acts; simpl; auto; fail).
+  all: try (apply inner_shape; eapply inner_unwind; eauto; fail).
+Qed.
+
+
+Lemma p_shape : forall c tid ch p a S p' code' S' ev,
+  lpstep c tid ch p a S = Some (p', code', S', ev) -> shape code' = true.
+Proof. intros c tid ch p a S p' code' S' ev H. inv_p H; reflexivity. Qed.
+
+Definition i_lock_eff (tid : nat) (i : linstr) (S S' : lshared) : Prop :=
+  match i with
+  | IRLock => readers S' = tid :: readers S /\ writer S' = None /\ writer S = None
+  | IExpand _ => readers S' = lremove1 tid (readers S) /\ writer S' = writer S
+  | IRUnlock => readers S' = lremove1 tid (readers S) /\ writer S' = writer S
+  | ILock => readers S' = [] /\ readers S = [] /\ writer S' = Some tid /\ writer S = None
+  | IAppend _ => readers S' = readers S /\ writer S' = None
+  | _ => readers S' = readers S /\ writer S' = writer S
+  end.
+Lemma i_lock : forall c tid i rest S code' S' ev, c_fixed_lock c = true ->
+  listep c tid i rest S = Some (code', S', ev) -> i_lock_eff tid i S S'.
+Proof.
+  intros c tid i rest S code' S' ev Hf H. inv_i H; simpl in *; auto.
+  all: try (rewrite Hf, orb_true_r in *; discriminate).
+  all: destruct sync; simpl; auto.
+Qed.
+Lemma i_code_lock : forall c tid rest S code' S' ev,
+  (listep c tid IRLock rest S = Some (code', S', ev) -> code' = rest) /\
+  (listep c tid ILock rest S = Some (code', S', ev) -> code' = rest).
+Proof. intros; split; intro H; simpl in H; repeat (match type of H with context [match ?x with _ => _ end] => destruct x end); try discriminate; inversion H; auto. Qed.
+
+Lemma In_remove1 : forall t x l, In t (lremove1 x l) -> In t l.
+Proof. induction l as [|y l IH]; simpl; auto. destruct (Nat.eqb y x); simpl; intros; auto. destruct H; auto. Qed.
+Lemma NoDup_remove1 : forall x l, NoDup l -> NoDup (lremove1 x l) /\ ~ In x (lremove1 x l).
+Proof.
+  induction l as [|y l IH]; simpl; intros N. { split; [constructor|auto]. }
+  inversion N; subst. destruct (Nat.eqb y x) eqn:E.
+  - apply Nat.eqb_eq in E. subst. auto.
+  - apply Nat.eqb_neq in E. destruct (IH H2) as [N1 N2]. split.
+    + constructor; auto. intro Hin. apply H1. eapply In_remove1; eauto.
+    + simpl. intros [Eq|Hin]; auto.
+Qed.
+
+Record LK (st : lstate) : Prop := {
+  kS : Forall (fun th => shape (t_code th) = true) (ths st);
+  kR : forall t, In t (readers (sh st)) ->
+       exists th fl r, nth_error (ths st) t = Some th /\ t_code th = IExpand fl :: r;
+  kN : NoDup (readers (sh st));
+  kW : forall w, writer (sh st) = Some w ->
+       exists th b r, nth_error (ths st) w = Some th /\ t_code th = IAppend b :: r
+}.
+
+Lemma LK_step : forall c tid ch st st', c_fixed_lock c = true -> LK st -> lstep c tid ch st = Some st' -> LK st'.
+Proof.
+  intros c tid ch st st' Hf K H. unfold lstep in H.
+  destruct (nth_error (ths st) tid) as [th|] eqn:Hn; try discriminate.
+  destruct (ltstep c tid ch th (sh st)) as [[[th' S'] ev]|] eqn:Hs; try discriminate.
+  inversion H; subst; clear H.
+  pose proof (Forall_nth_error _ _ _ _ _ (kS _ K) Hn) as Hsh. simpl in Hsh.
+  assert (Other : forall t, t <> tid -> nth_error (lset_nth tid th' (ths st)) t = nth_error (ths st) t).
+  { intros. apply nth_error_set_nth_neq. auto. }
+  destruct (tstep_inv _ _ _ _ _ _ _ _ Hs) as [[i [rest [code' [Hc [Hi E]]]]]|[Hc [p' [code' [Hp E]]]]]; subst th'.
+  - (* instruction *)
+    assert (HeadR : In tid (readers (sh st)) -> exists fl, i = IExpand fl).
+    { intro Hin. destruct (kR _ K _ Hin) as [th0 [fl [r [N0 C0]]]]. rewrite Hn in N0. inversion N0; subst th0.
+      rewrite Hc in C0. inversion C0. eauto. }
+    assert (HeadW : writer (sh st) = Some tid -> exists b, i = IAppend b).
+    { intro Hw. destruct (kW _ K _ Hw) as [th0 [b [r [N0 C0]]]]. rewrite Hn in N0. inversion N0; subst th0.
+      rewrite Hc in C0. inversion C0. eauto. }
+    pose proof (i_lock _ _ _ _ _ _ _ _ Hf Hi) as Eff. rewrite Hc in Hsh.
+    pose proof (i_shape _ _ _ _ _ _ _ _ Hf Hi Hsh) as Hsh'.
+    assert (KeepR : forall t, t <> tid -> In t (readers (sh st)) ->
+              exists th0 fl r, nth_error (lset_nth tid (lmk (t_pc th) code' (t_arg th)) (ths st)) t = Some th0 /\ t_code th0 = IExpand fl :: r).
+    { intros t Ne Hin. rewrite Other; auto. apply (kR _ K _ Hin). }
+    assert (KeepW : forall w, w <> tid -> writer (sh st) = Some w ->
+              exists th0 b r, nth_error (lset_nth tid (lmk (t_pc th) code' (t_arg th)) (ths st)) w = Some th0 /\ t_code th0 = IAppend b :: r).
+    { intros w Ne Hw. rewrite Other; auto. apply (kW _ K _ Hw). }
+    constructor; simpl.
+    + apply Forall_set_nth; [apply K|]. simpl. auto.
+    + intros t Hin. destruct i; simpl in Eff.
+      * (* IRLock *) destruct Eff as [R [W1 W0]]. rewrite R in Hin. destruct Hin as [Et|Hin].
+        -- subst t. pose proof (proj1 (i_code_lock c tid rest (sh st) code' S' ev) Hi) as Ec. subst code'.
+           simpl in Hsh. destruct rest as [|[] r']; try discriminate.
+           exists (lmk (t_pc th) (IExpand flush :: r') (t_arg th)), flush, r'. split; auto. eapply nth_error_set_nth_eq; eauto.
+        -- apply KeepR; auto. intro Et. subst t. destruct (HeadR Hin) as [fl Ef]. discriminate.
+      * destruct Eff as [R W]. rewrite R in Hin. destruct (NoDup_remove1 tid _ (kN _ K)) as [_ Nin].
+        apply KeepR; [intro Et; subst t; contradiction | eapply In_remove1; eauto].
+      * destruct Eff as [R W]. rewrite R in Hin. destruct (NoDup_remove1 tid _ (kN _ K)) as [_ Nin].
+        apply KeepR; [intro Et; subst t; contradiction | eapply In_remove1; eauto].
+      * destruct Eff as [R W]. rewrite R in Hin. apply KeepR; auto. intro Et. subst t. destruct (HeadR Hin) as [fl Ef]. discriminate.
+      * destruct Eff as [R W]. rewrite R in Hin. apply KeepR; auto. intro Et. subst t. destruct (HeadR Hin) as [fl Ef]. discriminate.
+      * destruct Eff as [R W]. rewrite R in Hin. apply KeepR; auto. intro Et. subst t. destruct (HeadR Hin) as [fl Ef]. discriminate.
+      * destruct Eff as [R W]. rewrite R in Hin. apply KeepR; auto. intro Et. subst t. destruct (HeadR Hin) as [fl Ef]. discriminate.
+      * destruct Eff as [R _]. rewrite R in Hin. contradiction.
+      * destruct Eff as [R W]. rewrite R in Hin. apply KeepR; auto. intro Et. subst t. destruct (HeadR Hin) as [fl Ef]. discriminate.
+    + destruct i; simpl in Eff; try (destruct Eff as [R _]; rewrite R; try apply K; try apply (NoDup_remove1 tid _ (kN _ K)); fail).
+      * destruct Eff as [R _]. rewrite R. constructor; [|apply K]. intro Hin. destruct (HeadR Hin) as [fl Ef]. discriminate.
+      * destruct Eff as [R _]. rewrite R. constructor.
+    + intros w Hw. destruct i; simpl in Eff.
+      * destruct Eff as [_ [W1 _]]. rewrite W1 in Hw. discriminate.
+      * destruct Eff as [_ W]. rewrite W in Hw. apply KeepW; auto. intro Et. subst w. destruct (HeadW Hw) as [b Eb]. discriminate.
+      * destruct Eff as [_ W]. rewrite W in Hw. apply KeepW; auto. intro Et. subst w. destruct (HeadW Hw) as [b Eb]. discriminate.
+      * destruct Eff as [_ W]. rewrite W in Hw. apply KeepW; auto. intro Et. subst w. destruct (HeadW Hw) as [b Eb]. discriminate.
+      * destruct Eff as [_ W]. rewrite W in Hw. apply KeepW; auto. intro Et. subst w. destruct (HeadW Hw) as [b Eb]. discriminate.
+      * destruct Eff as [_ W]. rewrite W in Hw. apply KeepW; auto. intro Et. subst w. destruct (HeadW Hw) as [b Eb]. discriminate.
+      * destruct Eff as [_ W]. rewrite W in Hw. apply KeepW; auto. intro Et. subst w. destruct (HeadW Hw) as [b Eb]. discriminate.
+      * destruct Eff as [_ [_ [W1 _]]]. rewrite W1 in Hw. inversion Hw; subst w.
+        pose proof (proj2 (i_code_lock c tid rest (sh st) code' S' ev) Hi) as Ec. subst code'.
+        simpl in Hsh. destruct rest as [|[] r']; try discriminate.
+        exists (lmk (t_pc th) (IAppend sync :: r') (t_arg th)), sync, r'. split; auto. eapply nth_error_set_nth_eq; eauto.
+      * destruct Eff as [_ W]. rewrite W in Hw. discriminate.
+  - (* pc transition: the thread holds nothing *)
+    destruct (p_lock _ _ _ _ _ _ _ _ _ _ Hp) as [R W].
+    constructor; simpl.
+    + apply Forall_set_nth; [apply K|]. simpl. eapply p_shape; eauto.
+    + intros t Hin. rewrite R in Hin. destruct (kR _ K _ Hin) as [th0 [fl [r [N0 C0]]]].
+      rewrite Other. { eauto. } intro Et. subst t. rewrite Hn in N0. inversion N0; subst th0. rewrite Hc in C0. discriminate.
+    + rewrite R. apply K.
+    + intros w Hw. rewrite W in Hw. destruct (kW _ K _ Hw) as [th0 [b [r [N0 C0]]]].
+      rewrite Other. { eauto. } intro Et. subst w. rewrite Hn in N0. inversion N0; subst th0. rewrite Hc in C0. discriminate.
+Qed.
+
+Lemma LK_init : forall cap0 async sync roles, LK (linit cap0 async sync roles).
+Proof.
+  intros. constructor; simpl; try (intros; contradiction); try discriminate; try constructor.
+  apply Forall_forall. intros th Hin. apply in_map_iff in Hin. destruct Hin as [r [E _]]. subst th. destruct r; reflexivity.
+Qed.
+Lemma LK_run : forall c sched st, c_fixed_lock c = true -> LK st -> LK (lrun c sched st).
+Proof.
+  intros c sched. induction sched as [|e r IH]; intros st Hf K; simpl; auto. apply IH; auto.
+  unfold lstep_or_skip. destruct (lstep c (fst e) (snd e) st) eqn:E; auto. eapply LK_step; eauto.
+Qed.
+
+(* every holder of sinksMux can move *)
+Lemma enabled_of_step0 : forall c h st st', lstep c h 0 st = Some st' -> lenabledb c h st = true.
+Proof. intros. unfold lenabledb. simpl. rewrite H. reflexivity. Qed.
+Lemma nth_error_lt : forall A (l : list A) n x, nth_error l n = Some x -> n < length l.
+Proof. intros. apply nth_error_Some. congruence. Qed.
+
+Lemma holder_enabled : forall c st h, LK st ->
+  (In h (readers (sh st)) \/ writer (sh st) = Some h) ->
+  lenabledb c h st = true /\ h < length (ths st) /\ lholdsb h (sh st) = true.
+Proof.
+  intros c st h K Hh. destruct Hh as [Hr|Hw].
+  - destruct (kR _ K _ Hr) as [th [fl [r [N C]]]]. split; [|split].
+    + assert (exists st', lstep c h 0 st = Some st') as [st' E].
+      { unfold lstep. rewrite N. unfold ltstep. rewrite C. simpl. destruct (fl || c_fixed_lock c); eauto. }
+      eapply enabled_of_step0; eauto.
+    + eapply nth_error_lt; eauto.
+    + unfold lholdsb. apply orb_true_iff. left. apply existsb_exists. exists h. split; auto. apply Nat.eqb_refl.
+  - destruct (kW _ K _ Hw) as [th [b [r [N C]]]]. split; [|split].
+    + assert (exists st', lstep c h 0 st = Some st') as [st' E].
+      { unfold lstep. rewrite N. unfold ltstep. rewrite C. simpl. eauto. }
+      eapply enabled_of_step0; eauto.
+    + eapply nth_error_lt; eauto.
+    + unfold lholdsb. apply orb_true_iff. right. rewrite Hw. apply Nat.eqb_refl.
+Qed.
+
+Lemma existsb_false_intro : forall A (f : A -> bool) l, (forall x, In x l -> f x = false) -> existsb f l = false.
+Proof. induction l; simpl; intros; auto. rewrite H, IHl; auto. Qed.
+Lemma forallb_false_intro : forall A (f : A -> bool) l x, In x l -> f x = false -> forallb f l = false.
+Proof. induction l; simpl; intros; [contradiction|]. destruct H; [subst; rewrite H0; auto|]. rewrite (IHl x); auto. apply andb_false_r. Qed.
+
+Theorem no_stuck_state : forall c cap0 async sync roles sched, c_fixed_lock c = true ->
+  llock_stuckb c (lrun c sched (linit cap0 async sync roles)) = false.
+Proof.
+  intros c cap0 async sync roles sched Hf.
+  pose proof (LK_run c sched _ Hf (LK_init cap0 async sync roles)) as K.
+  set (st := lrun c sched (linit cap0 async sync roles)) in *.
+  unfold llock_stuckb. apply existsb_false_intro. intros tid _.
+  destruct (nth_error (ths st) tid) as [th|] eqn:Hn; auto.
+  destruct (lwaits_lock th) eqn:Hw; auto. simpl.
+  destruct (lenabledb c tid st) eqn:He; auto. simpl.
+  (* tid waits and cannot move: find a holder *)
+  assert (Hold : exists h, In h (readers (sh st)) \/ writer (sh st) = Some h).
+  { assert (S0 : lstep c tid 0 st = None).
+    { destruct (lstep c tid 0 st) eqn:E; auto. rewrite (enabled_of_step0 _ _ _ _ E) in He. discriminate. }
+    unfold lstep in S0. rewrite Hn in S0. unfold ltstep in S0. unfold lwaits_lock in Hw.
+    destruct (t_code th) as [|[] r]; try discriminate; simpl in S0.
+    - destruct (writer (sh st)) as [w|]; [eauto|discriminate].
+    - destruct (writer (sh st)) as [w|]; [eauto|]. destruct (readers (sh st)) as [|r0 rs]; [discriminate|].
+      exists r0. left. left. reflexivity. }
+  destruct Hold as [h Hh]. destruct (holder_enabled c st h K Hh) as [E1 [E2 E3]].
+  apply forallb_false_intro with (x := h).
+  - apply in_seq. lia.
+  - rewrite E1, E3. reflexivity.
+Qed.
